@@ -473,6 +473,20 @@ pub fn run(args: &Args) -> Report {
             sc.reject_hold,
             if sc.many_responders { " one responder task per request, all waiting in next_bind_request at the same time".to_string() } else if sc.late_after != usize::MAX { format!(" one more request issued {} step(s) after the connection end was injected", sc.late_after) } else if sc.draws.is_empty() { String::new() } else { format!(" requester's flow-id draws {:?}", sc.draws) }
         );
+        // the plain scenarios of one or two requests once more with a responder that waits inside a select-like loop: a
+        // fresh next_bind_request future for every poll, dropped when it is not ready (documented as cancel safe)
+        if sc.reqs.len() <= 2 && !sc.faults && !sc.collide && !sc.sequential_same_id && !sc.many_responders && sc.draws.is_empty() && sc.buf == 1 {
+            let sc2 = sc.clone();
+            cases.push(Case {
+                try_unbounded: false,
+                max_k: 1,
+                label: format!("{label} | the responder re-creates its next_bind_request future at every poll"),
+                exec: Box::new(move |r| {
+                    let _restart = crate::apps::RestartWaits::set(true);
+                    exec(&sc2, r)
+                }),
+            });
+        }
         cases.push(Case { try_unbounded: false, max_k: u32::MAX, label, exec: Box::new(move |r| exec(&sc, r)) });
     };
     for n in 1..=3usize {
